@@ -59,6 +59,20 @@ def opImagePattern (fmt w h seed : String) : String :=
     "digest=" ++ hx ++ " len=" ++ toString d.utf8ByteSize ++ " head=" ++ (d.take 24).toString
   | _, _, _, _ => "bad-op"
 
+/-- `imgmt fmt w h seed T R`: T threads write the pattern images seed, seed+1, … to T files at the same time: every
+    file is what a single write of that image gives (the writers share no state) -/
+def opImageThreads (fmt w h seed T : String) : String :=
+  match fmtByName fmt, w.toNat?, h.toNat?, seed.toNat?, T.toNat? with
+  | some f, some sx, some sy, some sd, some t =>
+    if sx < 1 ∨ sy < 1 ∨ t < 1 ∨ t > 8 ∨ sx * sy > 1048576 then "bad-op" else
+    let wordsPerPixel := if f.compBytes == 1 then 1 else f.stride
+    let n := sx * sy * wordsPerPixel
+    let one (k : Nat) : String :=
+      let words := (List.range n).map fun i => ((sd + k + i) * 2654435761) % 4294967296
+      hexN 16 (fnv1a (opImageWords fmt w h (some words))).toNat
+    "|".intercalate ((List.range t).map one)
+  | _, _, _, _, _ => "bad-op"
+
 /-! trace programs -/
 
 /-- `none` = the pause token `Z` (the thread sleeps; not an API call, only the clock advances) -/
@@ -183,6 +197,7 @@ def opSave (cs : Nat) (s : St) (proc : String) : String :=
 def stepSt (cs : Nat) (s : St) : List String → St × String
   | "img" :: fmt :: w :: h :: ws => (s, opImage fmt w h ws)
   | ["imgpat", fmt, w, h, seed] => (s, opImagePattern fmt w h seed)
+  | ["imgmt", fmt, w, h, seed, t, _r] => (s, opImageThreads fmt w h seed t)
   | "thr" :: k :: prog =>
     match k.toNat?, parseProgram prog with
     | some k, some ops => ({ s with progs := addProg s.progs k ops }, "ok")
